@@ -56,3 +56,12 @@ pub trait VerifNow: std::future::Future + Sized {
     }
 }
 impl<F: std::future::Future> VerifNow for F {}
+
+/// stands in for the Blake2b512 object in `Archive::try_init` (mirror only): the checksum comparison is skipped there
+/// under cfg(kani), so the value is never looked at
+pub struct NoHasher;
+impl NoHasher {
+    pub fn finalize(self) -> [u8; 64] {
+        [0; 64]
+    }
+}
